@@ -154,6 +154,9 @@ func propC15(c *Ctx, r *Report) {
 		"that the guard's length expression and comparison are right, coverage of nested access chains / pointer arguments / stores / atomics in HLSL, GLSL and SPIR-V (they write their guards inline), the wrapper bodies, float-to-int conversion clamps, zero initialisation of variables")
 	c.runIndexRouting(r, "routing.index", inPkgs("msl/internal/codegen", "hlsl/internal/codegen", "glsl/internal/codegen", "spirv/internal/codegen"))
 	c.runHardened(r, "hardened.binary", []string{"spirv/internal/codegen", "hlsl/internal/codegen", "msl/internal/codegen"}, hardenedBinary, "BinaryOperator")
+	r.Clauses = append(r.Clauses, "block recursion (E3) of the SPIR-V statement walkers: the scan that decides which workgroup variables the zero-initialisation polyfill covers descends into every nested block")
+	c.runBlockWalkers(r, "operands", "spirv", inPkgs("spirv/internal/codegen"), nil)
+	r.floor("spirv.Block.walkers", 3)
 	r.floor("routing.index-sites", 3)
 	r.floor("hardened.ops", 6)
 }
